@@ -1695,18 +1695,23 @@ impl VtCtx {
             return;
         }
         self.w().h.label("burst");
+        let bno = {
+            let mut w = self.w();
+            let u = w.uniq();
+            format!("{}.{}", w.tag, u)
+        };
         for i in count..target {
             match kind {
                 0 => {
                     // sibling local spans
-                    let name = format!("b{}", i);
+                    let name = format!("b{}~{}", i, bno);
                     let li = self.enter_local_named(name, vec![], "burst");
                     let _ = li;
                     self.op_pop_guard(true, false);
                 }
-                1 => self.add_event_named(None, format!("be{}", i), vec![], &[]),
+                1 => self.add_event_named(None, format!("be{}~{}", i, bno), vec![], &[]),
                 _ => {
-                    let key = format!("bk{}~{}", i, self.w().tag);
+                    let key = format!("bk{}~{}", i, bno);
                     self.guarded("LocalSpan::add_property", |_| LocalSpan::add_property(|| (key.clone(), "v")));
                     let mut w = self.w();
                     let t = w.tick();
